@@ -13,6 +13,7 @@ import (
 	"verif.local/harness/hx"
 	"verif.local/harness/wx"
 	"verif.local/vrt"
+	"verif.local/vrt/vctx"
 )
 
 const typ = conformance.IntResourceType
@@ -99,6 +100,7 @@ func (s *sub) run(ctx context.Context, st state.State, log *hx.Log) {
 		return
 	}
 	take := func(ev state.Event) {
+		vrt.TouchKey("c02.received", true) // the writer samples every subscriber's progress
 		if s.errored {
 			s.afterErr++
 			return
@@ -143,8 +145,9 @@ func scenario(cfg ringCfg, flavours []wx.Flavour, writes int, bounds []int) expl
 		Name:   name,
 		Desc:   fmt.Sprintf("one writer running %d scripted writes over ids a,b (create/update/destroy/re-create + a foreign kind) against %d subscriber(s) %v; history initial capacity %d, max %d, gap %d", writes, len(flavours), flavours, cfg.initial, cfg.max, cfg.gap),
 		Bounds: bounds,
+		HB:     true,
 		Body: func(x *explore.X) {
-			ctx, cancel := context.WithCancel(context.Background())
+			ctx, cancel := vctx.WithCancel(context.Background())
 			log := &hx.Log{}
 			st := state.WrapCore(hx.NewInmem(log, inmem.WithHistoryInitialCapacity(cfg.initial), inmem.WithHistoryMaxCapacity(cfg.max), inmem.WithHistoryGap(cfg.gap)))
 			subs := make([]*sub, len(flavours))
@@ -158,6 +161,7 @@ func scenario(cfg ringCfg, flavours []wx.Flavour, writes int, bounds []int) expl
 			for i := 0; i < writes; i++ {
 				vrt.Yield()
 				row := make([]int, len(subs))
+				vrt.TouchKey("c02.received", false)
 				for j, s := range subs {
 					row[j] = s.received
 				}
